@@ -46,7 +46,7 @@ macro_rules! hist_check {
 }
 
 fn base() -> DmlCfg {
-    DmlCfg { tables: 1, pk: false, composite_pk: false, uniques: false, not_null: false, checks: false, fks: false, self_fk: false, user_indexes: false, unique_indexes: false, max_rows: 10, key_updates: true, inline_fk: false, setnull_on_notnull: true }
+    DmlCfg { tables: 1, pk: false, composite_pk: false, uniques: false, not_null: false, checks: false, fks: false, self_fk: false, user_indexes: false, unique_indexes: false, max_rows: 10, key_updates: true, inline_fk: false, setnull_on_notnull: true, replace: false, odku: false }
 }
 
 hist_check!(
@@ -67,7 +67,7 @@ hist_check!(
     C10,
     "C10",
     Focus::C10,
-    |_g: &GenCfg| DmlCfg { tables: 2, pk: true, composite_pk: true, uniques: true, not_null: true, checks: true, user_indexes: true, unique_indexes: true, ..base() },
+    |g: &GenCfg| DmlCfg { tables: 2, pk: true, composite_pk: true, uniques: true, not_null: true, checks: true, user_indexes: true, unique_indexes: true, replace: !(g.avoid_known && g.known_open.iter().any(|k| k.ends_with(".after_replace"))), odku: !(g.avoid_known && g.known_open.iter().any(|k| k.ends_with(".after_upsert"))), ..base() },
     400_000,
     10_000_000,
     14,
@@ -105,7 +105,7 @@ hist_check!(
     C15,
     "C15",
     Focus::C15,
-    |_g: &GenCfg| DmlCfg { tables: 2, pk: true, composite_pk: true, uniques: true, user_indexes: true, unique_indexes: true, ..base() },
+    |g: &GenCfg| DmlCfg { tables: 2, pk: true, composite_pk: true, uniques: true, user_indexes: true, unique_indexes: true, replace: !(g.avoid_known && g.known_open.iter().any(|k| k.ends_with(".after_replace"))), odku: !(g.avoid_known && g.known_open.iter().any(|k| k.ends_with(".after_upsert"))), ..base() },
     250_000,
     6_000_000,
     14,
